@@ -571,13 +571,13 @@ def check_sandwich_literal(s: str) -> Optional[str]:
     for op_layout in ("blocked", "interleaved"):
         if op_layout == "blocked":
             pair = {pi: po for po, pi in zip(sorted(free), sorted(cx))}
-            if not (max(free) < min(cx) or max(cx) < min(free)):
-                continue
+            if not (max(free) < min(cx)):
+                continue          # operator matrices are O[out, in]: the free (output) axes come first
         else:
             pair = {}
             good = True
             for pi in cx:
-                po = pi - 1 if (pi - 1) in free else (pi + 1 if (pi + 1) in free else None)
+                po = pi - 1 if (pi - 1) in free else None      # (out_i, in_i) pairs
                 if po is None:
                     good = False
                     break
@@ -656,6 +656,37 @@ def sandwich(repo: Repo) -> List[Ob]:
                     obs.append(bad("SANDWICH", fi, key, props, n, f"right factor is the adjoint of `{src(d)[:30]}`, left factor is `{src(A)[:30]}`"))
                 else:
                     obs.append(ok("SANDWICH", fi, key, props, n, "K rho K^dagger"))
+    # APPLY-LIT: ket-level applications  einsum("ij,jk…->ik…", O, psi): O is contracted through its *second* (input) axis
+    n_apply = 0
+    for fi in state_functions(repo):
+        props = _sandwich_props(fi)
+        cfg = None
+        k = 0
+        for n in sorted(walk_no_nested(fi.node), key=lambda x: (getattr(x, "lineno", 0), getattr(x, "col_offset", 0))):
+            if isinstance(n, ast.Call) and call_np(n) == "einsum" and len(n.args) == 3 and ("operator" in src(n.args[1]) or src(n.args[1]) in ("op", "operator")):
+                cfg = cfg or CFG(fi.node)
+                for lit in _const_strs(n.args[0], cfg, n):
+                    t = lit.replace(" ", "")
+                    if "->" not in t or t.count(",") != 1:
+                        continue
+                    lhs, Z = t.split("->")
+                    X, S = lhs.split(",")
+                    if len(X) != 2:
+                        continue
+                    k += 1
+                    n_apply += 1
+                    key = f"apply-literal#{k}"
+                    problems = []
+                    if X[1] not in S or X[0] in S:
+                        problems.append("the operator is contracted through its first (output) axis: this applies the transposed operator")
+                    else:
+                        exp = S.replace(X[1], X[0])
+                        if Z != exp:
+                            problems.append(f"output `{Z}` is not the state `{S}` with the contracted index replaced in place (expected `{exp}`)")
+                    (obs.append(bad("SANDWICH-LIT", fi, key, props, n, f'"{lit}": ' + "; ".join(problems))) if problems else
+                     obs.append(ok("SANDWICH-LIT", fi, key, props, n, "O psi with O[out, in] contracted through its input axis")))
+    if n_apply < 4:
+        raise AnalysisError(f"APPLY-LIT: {n_apply} ket-level literal applications (floor 4)")
     if n_call < 14:
         raise AnalysisError(f"SANDWICH: {n_call} three-factor applications (floor 14)")
     if n_lit < 8:
